@@ -154,7 +154,7 @@ pub fn run(ctx: &Ctx) -> Result<(), String> {
     ctx.cov("sampled_wall_clock", json!(sampled));
     ctx.cov("caps_hit", json!(sched.caps_hit));
     ctx.cov("exhaustive", json!(sched.caps_hit.is_empty()));
-    ctx.cov("rule", json!("(1) the real server process under the controlled scheduler: N workers, client_stats off/on, K requests; the environment action signal(INT|TERM) is placed at every position of the request program and, being an actor, is interleaved at every point of every explored schedule (iterative preemption bounding). Oracle: after the signal the process exits with status 0 under the fair default continuation within the horizon; no enabled actor while alive = deadlock; horizon exceeded = livelock; no panic text; every datagram a client received is an authentic reply. (2) flood lasso: adversarial environment refills the worker's socket with batch_size datagrams at every batch boundary after the flag is stored; the worker must reach flag_check within R rounds (a recurring abstract state without flag_check is a lasso). (3) sampled wall-clock runs of the free-running binary (idle / after closed-loop load, swept delays, both signals, client_stats off/on): exit 0 within 5 s."));
+    ctx.cov("rule", json!("(1) the real server process under the controlled scheduler: N workers, client_stats off/on, K requests; the environment action signal(INT|TERM) is placed at every position of the request program and, being an actor, is interleaved at every point of every explored schedule (iterative preemption bounding). Oracle: after the signal the process exits with status 0 under the fair default continuation within the horizon; no enabled actor while alive = deadlock; horizon exceeded = livelock; no panic text; every datagram a client received is an authentic reply. (2) flood lasso: after the flag is stored an adversarial environment refills the worker's socket with batch_size datagrams (valid / rejected / mixed) before every step of the worker inside process_events (per received datagram, per response, per batch); the worker must reach flag_check within the step bound of a bounded drain (a recurring abstract state without flag_check is a lasso). (3) sampled wall-clock runs of the free-running binary (idle / after closed-loop load, swept delays, both signals, client_stats off/on): exit 0 within 5 s."));
     ctx.sample(json!({"kind":"schedule","scenario":"shutdown-n2-stats0-k2-INT-pos1","schedule":["env:send(c1,C)","env:signal(INT)","worker-0@loop_top(0)","worker-0@polled(1)"]}));
     ctx.assume("signal delivery is one atomic environment action: kill(), then wait until the flag store is observed (the handler thread does nothing else)");
     ctx.assume("'a few seconds' is decided in steps (bounded liveness under the fair continuation); wall-clock runs are conformance evidence");
@@ -166,7 +166,7 @@ pub fn replay_case(c: &Value) -> Result<Option<String>, String> {
         Some("schedule") => crate::sched::replay_schedule(c),
         Some("lasso") => {
             let bs = c["batch_size"].as_u64().unwrap_or(1) as u8;
-            let r = crate::sched::flood_lasso_once(bs, 30)?;
+            let r = crate::sched::flood_lasso_kind(bs, 30, c["datagrams"].as_str().unwrap_or("valid"))?;
             Ok(if r.0 { None } else { Some(format!("flag_check not reached in {} refill rounds", r.1)) })
         }
         _ => Err("replay of this case kind: re-run the check".into()),
